@@ -261,14 +261,29 @@ def rule_r4(rep, program: Program):
 MEMO_DECORATORS = ("cached_property", "functools.cached_property", "lru_cache", "functools.lru_cache", "cache", "functools.cache")
 
 
-def rule_r5(rep, program: Program):
-    r = rep.rule("R5", "no object-level memoisation (cached_property / lru_cache / lazy slot) of quantities derived from self.metric in system classes", floor=10)
+def rule_r5(rep, program: Program, prop=PROP, rule="R5"):
+    PROP = prop  # noqa: N806
+    r = rep.rule(rule, "no object-level memoisation (cached_property / lru_cache / lazy slot) of quantities derived from self.metric in system classes", floor=10)
     for k in program.subclasses("System"):
         for name, f in k.methods.items():
             reads_metric = any(is_self_attr(n, "metric") for n in ast.walk(f.node))
             decos = [norm(d.func if isinstance(d, ast.Call) else d) for d in f.node.decorator_list]
             memo = [d for d in decos if d in MEMO_DECORATORS]
             lazy = [n for n in ast.walk(f.node) if isinstance(n, ast.If) and isinstance(n.test, ast.Compare) and is_self_attr(n.test.left) and isinstance(n.test.ops[0], ast.Is) and any(isinstance(s, ast.Assign) and any(is_self_attr(t) for t in s.targets) for s in n.body)] if name != "__init__" else []
+            # any other store into the system object outside the constructor (a dict used as a cache,
+            # a plain attribute): self.x = ..., self.x[k] = ..., self.x.setdefault / update / append
+            if name != "__init__" and not f.is_setter:
+                for n in ast.walk(f.node):
+                    tg = n.targets if isinstance(n, ast.Assign) else [n.target] if isinstance(n, (ast.AugAssign, ast.AnnAssign)) else []
+                    for t in tg:
+                        for tt in (t.elts if isinstance(t, ast.Tuple) else [t]):
+                            base = tt
+                            while isinstance(base, ast.Subscript):
+                                base = base.value
+                            if is_self_attr(base) and base.attr not in ("metric",):
+                                lazy.append(n)
+                    if isinstance(n, ast.Call) and isinstance(n.func, ast.Attribute) and is_self_attr(n.func.value) and n.func.attr in ("setdefault", "update", "append", "add", "__setitem__"):
+                        lazy.append(n)
             r.inst({"method": f.qualname, "reads self.metric": reads_metric}, exercised=reads_metric)
             if reads_metric and (memo or lazy):
                 how = memo[0] if memo else "a lazily filled attribute"
@@ -296,10 +311,10 @@ def run(rep, program: Program, tier: str) -> None:
         "per-eigen-mode scalar model: eigvec is orthogonal and metric.inv acts as 1/eigval in the eigenbasis (C10)",
         "d/dt sin = cos, d/dt cos = -sin",
     ]
-    rule_r1(rep, program)
-    rule_r2(rep, program)
-    rule_r3(rep, program)
-    rule_r4(rep, program)
-    rule_r5(rep, program)
+    rep.isolate(rule_r1, rep, program)
+    rep.isolate(rule_r2, rep, program)
+    rep.isolate(rule_r3, rep, program)
+    rep.isolate(rule_r4, rep, program)
+    rep.isolate(rule_r5, rep, program)
     # a derivative that updates a cached array in place is wrong from its second evaluation on (shared with C09-R9)
-    c09.rule_r9(rep, program, prop=PROP, rule="R6")
+    rep.isolate(c09.rule_r9, rep, program, prop=PROP, rule="R6")
